@@ -53,6 +53,11 @@ CHECKS = {
    "stateful property testing against /proc observations; fault injection in child processes (RLIMIT_AS, map-count exhaustion)",
    "Generated create/use/drop histories of up to 200 buffers over 1-8 threads must return the count of deleted-file mappings and of descriptors to the baseline; the mapping layout and byte-for-byte aliasing of the halves is checked for every offset; the set-up table (element kinds x valid/invalid sizes) is enumerated; mapping failures injected in child processes must surface as Err without leaks.",
    "only stream-attributable /proc entries are counted; single-threaded check; injected faults are ENOMEM from RLIMIT_AS and vm.max_map_count", "DESIGN.md §5 C18"),
+
+ "C17": ("E6 OS fault harness", "fault_enumeration",
+   "model-based testing of open modes (enumerated) + crash-point fault injection (SIGKILL of a child process at generated points, prefix/acknowledgement oracle)",
+   "All 54 combinations of mode x initial file state x sink kind are enumerated against a model of the documented modes; a child process streams seeded data through the sink and acknowledges consumed counts after every work(); it is SIGKILLed after a generated number of acknowledgements plus a generated spin, and the file must be a prefix of the serialised stream at least as long as what was acknowledged.",
+   "process death, not power loss; root user (structural instead of permission-based failures); kill instants sampled, oracle valid for any instant", "DESIGN.md §5 C17"),
 }
 
 NOT_YET = {}
@@ -95,6 +100,8 @@ def main():
             {"name": "E2 drip-feed driver", "path": "harness/src/drip.rs, harness/src/catalog.rs, harness/src/dripcase.rs",
              "serves_properties": ["C08", "C09", "C10", "C12", "C13", "C16", "C19"],
              "kind_free_text": "plays both neighbours of one block on small streams; generated feed/free/work schedules; per-call observations"},
+            {"name": "E6 OS fault harness", "path": "harness/src/osfault.rs", "serves_properties": ["C17", "C18"],
+             "kind_free_text": "/proc readers; the harness binary re-executes itself in child modes (rlimit, mapcount, sink) for rlimits, map-count exhaustion and SIGKILL"},
             {"name": "E3 reference models", "path": "harness/src/refmodel.rs", "serves_properties": ["C10", "C11", "C13", "C14", "C20"],
              "kind_free_text": "independent executable specifications (bitwise CRC, HDLC framer, resampler index map, LFSR, DFT, ...)"},
         ],
